@@ -89,7 +89,7 @@ def main(tier):
              "every finished execution is recorded",
         assumptions=["script begin/end are reported by the generated scripts (trap EXIT), lock/record/commit events by the hooks",
                      "SIGKILL of invocations is not part of these scenarios"],
-        budget_s=50 if tier == "quick" else 2400)
+        budget_s=600 if tier == "quick" else 3000)
 
 
 def replay(path):
